@@ -1,6 +1,6 @@
 """C03 - NDEF writes touch nothing outside the NDEF message area."""
 from harness import worlds, ndefflow
-from harness.c01_ndef import lens_for, T2_LAYOUTS_48
+from harness.c01_ndef import lens_for, T2_LAYOUTS_48, THOROUGH_ONLY
 
 PROPERTY = "C03"
 
@@ -73,6 +73,8 @@ T1 = [("topaz", (0x11, 0x48), 120, "", []),
 def partitions(tier):
     parts = []
     for i, (prefix, rsv) in enumerate(T2_LAYOUTS_48):
+        if tier == "quick" and prefix in THOROUGH_ONLY:
+            continue
         parts.append(dict(name="t2:48:%s:%d:write" % (prefix or "-", i), fn="t2_write",
                           params=dict(S=48, prefix=prefix, rsv=rsv, oldlens=[0, 3],
                                       lens=[0, 1, 5, 9, "cap-1", "cap"] if tier == "quick"
@@ -124,5 +126,5 @@ MUST_REACH = ["format_wipe", "format_no_wipe", "rsv_inside_message", "rsv_beyond
               "rsv_at_end_of_data_area", "rsv_before_ndef_tlv"]
 BOUNDS = {"quick": "the Type 1/2 structured layouts of C01 (incl. the 296-byte Type 1 layouts with 257/258 bytes left and 216 guard bytes behind the declared area), Type 3 (four triples, emulation too) and Type 4 (6 guard bytes behind the declared file) worlds; message lengths from boundary sets up to capacity+8; format with/without a symbolic wipe byte; all other memory symbolic",
           "thorough": "as quick with every length for 48-byte areas and larger data areas"}
-OUTSIDE = ["layouts with more than one lock- and one memory-control TLV", "Topaz/Topaz-512 format() on layouts other than the vendor's standard layout (it re-creates that layout by design)", "format(wipe) with a wipe value below 0x80 (value ranges of old and new contents are separated to avoid 2^pages forks)"]
+OUTSIDE = ["layouts with more than two lock- or memory-control TLVs of a kind", "Topaz/Topaz-512 format() on layouts other than the vendor's standard layout (it re-creates that layout by design)", "format(wipe) with a wipe value below 0x80 (value ranges of old and new contents are separated to avoid 2^pages forks)"]
 ASSUMPTIONS = ["NDEF message area := bytes from the NDEF TLV's length byte to the end of the data area minus reserved ranges, computed by the harness from the layout it generated"]
